@@ -52,6 +52,21 @@ fn main() {
     let args: Vec<String> = std::env::args().collect();
     let cmd = args.get(1).map(|s| s.as_str()).unwrap_or("");
     match cmd {
+        "probe-deep" => {
+            // vmon probe-deep <which 2|3> <depth> <stack_kb>: parse a deep nesting on a thread with the given stack size
+            let which: u64 = args[2].parse().unwrap();
+            let depth: usize = args[3].parse().unwrap();
+            let stack_kb: usize = args[4].parse().unwrap();
+            obs::install_hook();
+            let h = std::thread::Builder::new().stack_size(stack_kb << 10).spawn(move || props::c05::deep_probe_body(which, depth)).unwrap();
+            match h.join() {
+                Ok(n) => {
+                    println!("probe-deep ok items={}", n);
+                    std::process::exit(0)
+                }
+                Err(_) => std::process::exit(3),
+            }
+        }
         "list" => {
             for p in props::all() {
                 println!("{} {} quick={} thorough={}", p.id, p.level, p.cases_quick, p.cases_thorough);
@@ -89,7 +104,7 @@ fn main() {
             }
             let seed = seed_from_env();
             if let Some(n) = only {
-                let r = runner::run_one(def, tier, seed, n, true);
+                let r = runner::run_one_threaded(def, tier, seed, n, true);
                 match r {
                     Ok(c) => {
                         println!("case {} evaluations={} violations={}", n, c.evals, c.viols.len());
@@ -110,7 +125,7 @@ fn main() {
                 alloc::set_prop_tag(def.id);
                 for idx in 0..total {
                     eprintln!("CASE {}", idx);
-                    let _ = runner::run_one(def, tier, seed, idx, false);
+                    let _ = runner::run_one_threaded(def, tier, seed, idx, false);
                 }
                 std::process::exit(0);
             }
@@ -137,7 +152,7 @@ fn main() {
             let def = find_prop(id).expect("known property");
             obs::install_hook();
             alloc::set_prop_tag(def.id);
-            match runner::run_one(def, tier, seed, idx, true) {
+            match runner::run_one_threaded(def, tier, seed, idx, true) {
                 Ok(c) => {
                     println!("replayed {} case {} (seed {}, tier {}): evaluations={} violations={}", id, idx, seed, tier.name(), c.evals, c.viols.len());
                     for v in &c.viols {
